@@ -13,6 +13,7 @@ import mdtraj.formats.mdcrd as _mdcrd
 import mdtraj.formats.xyzfile as _xyz
 import mdtraj.formats.lammpstrj as _lmp
 import mdtraj.formats.arc as _arc
+import mdtraj.formats.gro as _gro
 from mdtraj.core.topology import Topology
 from mdtraj.core import element as _el
 from vtlib.fakes import FakeTables, NPInt, h5_handle_arrays, nc_handle_arrays
@@ -57,12 +58,12 @@ def mk_nc(total, pos=0):
     return f
 
 
-MK = {"h5": mk_h5, "nc": mk_nc, "mdcrd": T.mk_mdcrd, "xyz": T.mk_xyz, "lammpstrj": T.mk_lammpstrj, "arc": T.mk_arc}
-NAT = {"h5": 4, "nc": 4, "mdcrd": 3, "xyz": 3, "lammpstrj": 3, "arc": 3}
+MK = {"h5": mk_h5, "nc": mk_nc, "mdcrd": T.mk_mdcrd, "xyz": T.mk_xyz, "lammpstrj": T.mk_lammpstrj, "arc": T.mk_arc, "gro": lambda total, pos=0: T.mk_gro(total, pos, TOP3)}
+NAT = {"h5": 4, "nc": 4, "mdcrd": 3, "xyz": 3, "lammpstrj": 3, "arc": 3, "gro": 3}
 TOPS = {4: TOP4, 3: TOP3}
 
 
-SCALE = {"h5": 1, "nc": 1, "mdcrd": 10, "xyz": 10, "lammpstrj": 10, "arc": 10}   # text files hold (i, j, 0) angstrom
+SCALE = {"h5": 1, "nc": 1, "mdcrd": 10, "xyz": 10, "lammpstrj": 10, "arc": 10, "gro": 1}   # text files hold (i, j, 0) angstrom
 
 
 def ids_of_traj(t, fmt="h5"):
@@ -92,6 +93,8 @@ def _read_stride_step(fmt, total, pos, n, stride):
     f = MK[fmt](total, pos)
     got = _ids_raw(fmt, f.read(n_frames=n, stride=stride))
     want_all = list(range(pos, total, stride))
+    if fmt == "gro":      # no frame counter in this class: the cursor is the file position, observed through what is read next
+        return got == want_all[:n] and _ids_raw(fmt, f.read(stride=stride)) == want_all[n:]
     pos2 = f._frame_index
     rest = list(range(pos2, total, stride)) if pos2 < total else []
     return got == want_all[:n] and rest == want_all[n:]
@@ -116,7 +119,7 @@ def _iterload(fmt, total, chunk, stride, skip, bits):
     _tr.open = _open_for(fmt, total)
     n = NAT[fmt]
     sub = None if bits is None else _subset(n, bits)
-    kw = {} if fmt == "h5" else {"top": TOPS[n]}
+    kw = {} if fmt in ("h5", "gro") else {"top": TOPS[n]}
     chunks = list(_tr.iterload("mem." + fmt, chunk=chunk, stride=stride, skip=skip, atom_indices=sub, **kw))
     want = list(range(total))[skip::stride]
     got = [i for c in chunks for i in ids_of_traj(c, fmt)]
@@ -133,7 +136,7 @@ def _iterload(fmt, total, chunk, stride, skip, bits):
             return False
         if [a.name for a in c.topology.atoms] != ["C%d" % j for j in want_atoms]:
             return False
-        if fmt in ("h5", "nc"):
+        if fmt in ("h5", "nc", "gro"):
             if [int(round(float(x))) for x in c.time] != [2 * i for i in ids_of_traj(c, fmt)]:
                 return False
             if [int(round(float(x))) for x in c.unitcell_lengths[:, 0]] != [5 + i for i in ids_of_traj(c, fmt)]:
@@ -161,11 +164,14 @@ def _install_class(fmt, total):
         _lmp.LAMMPSTrajectoryFile = fac
     elif fmt == "arc":
         _arc.ArcTrajectoryFile = fac
+    elif fmt == "gro":
+        _gro.GroTrajectoryFile = fac
 
 
 LOADERS = {"h5": lambda **k: _h5.load_hdf5("mem.h5", **k), "nc": lambda **k: _nc.load_netcdf("mem.nc", top=TOP4, **k),
            "mdcrd": lambda **k: _mdcrd.load_mdcrd("mem.mdcrd", top=TOP3, **k), "xyz": lambda **k: _xyz.load_xyz("mem.xyz", top=TOP3, **k),
-           "lammpstrj": lambda **k: _lmp.load_lammpstrj("mem.lammpstrj", top=TOP3, **k), "arc": lambda **k: _arc.load_arc("mem.arc", **k)}
+           "lammpstrj": lambda **k: _lmp.load_lammpstrj("mem.lammpstrj", top=TOP3, **k), "arc": lambda **k: _arc.load_arc("mem.arc", **k),
+           "gro": lambda **k: _gro.load_gro("mem.gro", **k)}
 
 
 def _load_frame(fmt, total, frame, bits):
@@ -184,9 +190,50 @@ def _load_stride(fmt, total, stride, bits):
     sub = None if bits is None else _subset(n, bits)
     t = LOADERS[fmt](stride=stride, atom_indices=sub)
     ok = ids_of_traj(t, fmt) == list(range(0, total, stride)) and atoms_of_traj(t, fmt) == (list(range(n)) if sub is None else sub)
-    if fmt in ("h5", "nc"):
+    if fmt in ("h5", "nc", "gro"):
         ok = ok and [int(round(float(x))) for x in t.time] == [2 * i for i in range(0, total, stride)]
     return ok
+
+
+def gro_read_stride_step(total: int, pos: int, n: int, stride: int) -> bool:
+    """
+    pre: 1 <= total <= 6 and 0 <= pos <= total and 1 <= n <= 4 and 1 <= stride <= 4
+    post: __return__
+    """
+    return _read_stride_step("gro", conc(total, 1, 6), conc(pos, 0, 6), conc(n, 1, 4), conc(stride, 1, 4))
+
+
+def gro_read_all_stride(total: int, pos: int, stride: int) -> bool:
+    """
+    pre: 1 <= total <= 6 and 0 <= pos <= total and 1 <= stride <= 4
+    post: __return__
+    """
+    return _read_all_stride("gro", conc(total, 1, 6), conc(pos, 0, 6), conc(stride, 1, 4))
+
+
+def gro_iterload(total: int, chunk: int, stride: int) -> bool:
+    """
+    pre: 1 <= total <= 5 and 1 <= chunk <= 6 and 1 <= stride <= 3
+    post: __return__
+    """
+    # (skip > 0 needs seek(), which this class does not offer: refused with NotImplementedError)
+    return _iterload("gro", total, conc(chunk, 1, 6), conc(stride, 1, 3), 0, None)
+
+
+def gro_iterload_atoms(total: int, chunk: int, stride: int, b0: bool, b1: bool, b2: bool) -> bool:
+    """
+    pre: 1 <= total <= 3 and 1 <= chunk <= 3 and 1 <= stride <= 2 and (b0 or b1 or b2)
+    post: __return__
+    """
+    return _iterload("gro", total, conc(chunk, 1, 3), conc(stride, 1, 2), 0, (b0, b1, b2))
+
+
+def gro_load_stride(total: int, stride: int, b0: bool, b1: bool, b2: bool) -> bool:
+    """
+    pre: 1 <= total <= 6 and 1 <= stride <= 4 and (b0 or b1 or b2)
+    post: __return__
+    """
+    return _load_stride("gro", total, conc(stride, 1, 4), (b0, b1, b2))
 
 
 # ------------------------------------------------------------------ CrossHair entry points (generated)
